@@ -9,6 +9,8 @@ class EdgeListToNetwork:
     @staticmethod
     def convert(edgelist: LightWeightEdgeList) -> Network:
         model = Network()
+        # one vertex per joint degree entry, so that vertices of degree zero survive
+        model.G.add_nodes_from(range(len(edgelist.joint_degrees)))
         model.G.add_edges_from(edgelist.edge_list)
 
         # create vertex attributes dict
